@@ -19,4 +19,9 @@ PROFILES = [
     S.profile(min_tasks=2, max_tasks=3, p_resources=100, task_constraints=(0, 0), optional_rules=(0, 0), resource_constraints=(0, 1), focus=S.RESOURCE_CONSTRAINTS, p_optional=15, horizon=(3, 8)),
     S.profile(min_tasks=2, p_resources=100, task_constraints=(0, 2), optional_rules=(0, 1), resource_constraints=(1, 2), focus=S.RESOURCE_CONSTRAINTS, p_interleave=20),
 ]
+PROFILES.append(
+    # two selections that both list the cumulative worker (and common plain workers), under Same/DistinctWorkers
+    S.profile(min_tasks=2, max_tasks=3, p_resources=100, n_workers=(2, 3), p_select=100, p_cumulative=100, p_cumulative_in_select=75, task_constraints=(0, 1), optional_rules=(0, 0),
+              resource_constraints=(1, 1), focus=["SameWorkers", "DistinctWorkers"], p_optional=10, p_work_amount=5, horizon=(3, 7))
+)
 prop, run_shard, replay = _sound.make(ID, FAMILIES, "C04.soundness", PROFILES, 110, 1200)
